@@ -138,6 +138,15 @@ impl Prop for C02 {
                 }
             })
         }));
+        v.push(Scope::new("markup-strings-3", "every string of length 3 over the markup alphabet in the plain, quoted and legend-declaration sinks", move |f| {
+            let a = sigma_markup();
+            enumr::strings_exact(&a, 3, &mut |s| {
+                let st: String = s.iter().collect();
+                for sink in [0usize, 2, 3] {
+                    f(Case::snx("", vec![sink as i64, 0], vec![st.clone()]));
+                }
+            })
+        }));
         v.push(Scope::new("switches", "every markup string up to length 2 x {plain, legend-decl} sinks x 8 include_* combinations x {pretty, compressed}", move |f| {
             let a = sigma_markup();
             enumr::strings_upto(&a, 2, &mut |s| {
